@@ -272,7 +272,7 @@ func flRun(base string, ca interface{}, pool interface{}, f []string, o *Out, px
 		select {
 		case <-cl.done:
 			res[i] = cl.result
-		case <-time.After(15 * time.Second):
+		case <-runningFor(15 * time.Second):
 			res[i] = "HANG"
 		}
 		if gone[i] {
